@@ -127,6 +127,31 @@ func evalFunc(f *ssa.Function, depth int) (string, bool) {
 // case returns (first result) or of the phi operand it contributes at the
 // merge point. "default" is the outcome when no case matches.
 func (fa *FuncAn) caseTable(termPat string) (map[string]string, []string) {
+	out, order := fa.caseTable1(termPat)
+	if len(out) > 0 {
+		return out, order
+	}
+	// the switch was extracted into a helper introduced later: read it there, with the helper's
+	// parameters rendered as this function's arguments
+	for _, b := range fa.Fn.Blocks {
+		for _, in := range b.Instrs {
+			call, ok := in.(*ssa.Call)
+			if !ok {
+				continue
+			}
+			if g := call.Call.StaticCallee(); g != nil && newHelper(g) && fa.R.inlineDepth < 2 {
+				sub := NewFuncAnCtx(fa.W, g, fa.CallArgs(call))
+				sub.R.inlineDepth = fa.R.inlineDepth + 1
+				if o, ord := sub.caseTable(termPat); len(o) > 0 {
+					return o, ord
+				}
+			}
+		}
+	}
+	return out, order
+}
+
+func (fa *FuncAn) caseTable1(termPat string) (map[string]string, []string) {
 	out := map[string]string{}
 	var order []string
 	follow := func(e Edge) string {
